@@ -732,7 +732,7 @@ MessageReceivedFromGateway(const MessageRef & msgRef, void * userData)
                }
                else if ((fn == PR_NAME_KEYS)||(fn == PR_NAME_FILTERS))
                {
-                  (void) msg.MoveName(fn, _defaultMessageRouteMessage);
+                  (void) msg.CopyName(fn, _defaultMessageRouteMessage);  // not MoveName():  the field must also reach _parameters below, which is what enables the default route
                   updateDefaultMessageRoute = true;
                }
                else if (fn == PR_NAME_SUBSCRIBE_QUIETLY)
